@@ -3,7 +3,7 @@ Used as the search oracle (never in place of a theorem)."""
 import math
 from .gens import parse_uint, val_of, B
 
-C01_OPS = ["add", "sub", "mul", "divmod", "cmp", "gcd", "pow"]
+C01_OPS = ["add", "sub", "mul", "divmod", "div", "rem", "cmp", "gcd", "pow"]
 C10_OPS = ["factorial", "fibonacci", "and", "or", "xor", "lshift_n", "rshift_n", "try_as_usize", "lshift", "rshift", "root_n"]
 
 def expected(case):
@@ -22,6 +22,9 @@ def expected(case):
     if op == "divmod":
         if args[1] == 0: return ("err", {"divideByZero"})
         return ("ok", list(divmod(args[0], args[1])))
+    if op in ("div", "rem"):
+        if args[1] == 0: return ("err", {"divideByZero"})
+        return ("ok", [divmod(args[0], args[1])[0 if op == "div" else 1]])
     if op == "cmp": return ("ok", [(args[0] > args[1]) - (args[0] < args[1])])
     if op == "gcd": return ("ok", [math.gcd(args[0], args[1])])
     if op == "pow":
